@@ -2,7 +2,7 @@ SPECIFICATION Spec
 CONSTANTS
   VRPairs <- VRAll
   Surrounds = {{}, {3}, {6}, {9}, {12}, {3, 6}, {3, 9}, {3, 12}, {6, 9}, {6, 12}, {9, 12}, {3, 6, 9}, {3, 6, 12}, {3, 9, 12}, {6, 9, 12}, {3, 6, 9, 12}}
-  DocHi = {TRUE, FALSE}
+  DocHi = {TRUE}
   DocSurs = {{}, {3, 9}, {6, 12}, {3, 6, 9, 12}}
   DocOther = {"none", "all", "mixed"}
   E2EAlgs = {"rc4_40", "rc4_40_v2", "rc4_40_r3", "rc4_128_r3", "rc4_128", "aes_128", "aes_256", "aes_256_r6"}
